@@ -390,20 +390,24 @@ def _app_request(ctx: Ctx, R: RecvModel, E):
     if (appvar, "truthy", None, True) not in facts:
         ctx.fail(cons + "#guard", g.loc(dn), "delivery is not conditioned on an application having "
                  "been selected")
+    def _is_msg_key(sl):
+        t_ = A.resolve_local_chain(f.node, sl)
+        return f"{msg}.header.hop_by_hop_identifier" in t_
     recs = [n for n in g.nodes if n.kind == "stmt" and isinstance(n.ast, ast.Assign) and any(
-        isinstance(t, ast.Subscript) and ast.unparse(t.slice) == f"{msg}.header.hop_by_hop_identifier"
-        for t in n.ast.targets)]
+        isinstance(t, ast.Subscript) and _is_msg_key(t.slice) for t in n.ast.targets)]
     cons = "_receive_app_request:pending-record"
     ctx.inst(cons)
     if not recs or not g.dominated(dn, recs):
-        ctx.fail(cons, g.loc(dn), "the request is delivered without its hop-by-hop id being recorded "
-                 "as pending for the requesting host (its answer can never be routed)")
+        ctx.fail(cons, g.loc(dn), "the request is delivered without its identifiers being recorded "
+                 "as pending for the requesting connection (its answer can never be routed)")
     else:
         wdef = [n for n in g.nodes if n.kind == "stmt" and isinstance(n.ast, ast.Assign)
                 and any(A.dotted(t) == A.dotted(recs[0].ast.targets[0].value) for t in n.ast.targets)]
-        if wdef and ast.unparse(wdef[0].ast.value).replace(" ", "") != f"self._peer_waiting_answer[{conn}.host_identity]":
+        if wdef and ast.unparse(wdef[0].ast.value).replace(" ", "") not in (
+                f"self._peer_waiting_answer[{conn}.ident]",
+                f"self._peer_waiting_answer.setdefault({conn}.ident,{{}})"):
             ctx.fail(cons + "#key", g.loc(wdef[0]), "the pending record is not filed under the "
-                     "requesting connection's host identity")
+                     "requesting connection (its ident)")
     after = g.reach([x for l, x in dn.succ if l != "exc"])
     sends = [n for n in g.nodes if n.has_call("send_message")]
     cons = "_receive_app_request:delivered-once"
